@@ -1565,9 +1565,11 @@ package goatlang
 //@ ghost hoisted(t *token) bool
 //@
 //@ func treeSort
-//@   property C16
+//@   property C16 C03
 //@   trusted
+//@   requires#top top != nil
 //@   modifies allbut(H$VM)
+//@   nopanic
 //@   ensures result == top
 //@   trusted_ensures hoisted(result)
 //@
@@ -1594,9 +1596,14 @@ package goatlang
 //@   property C16 C15
 //@   modifies *
 //@   callsite#sorted loadImports: hoisted(arg_top)
+//@ -- A-WF (tree shape, established by the parser: token.Append rejects nil children, packageNud
+//@ -- gives a package node its name child) is assumed where the loader walks a tree.
 //@ func rawLoadPackage
 //@   property C15 C03
 //@   modifies *
+//@   nopanic
+//@   ensures#tree @C03 isnil(result1) ==> result0 != nil
+//@   assume @def:first first != nil && (first.Symbol == "package" ==> len(first.Tokens) >= 1 && first.Tokens[0] != nil)
 //@   callsite#fsnonnil @C03 io/fs.Glob: !isnil(arg_0)
 //@   assert#notests @2 (forall j int :: 0 <= j && j < len(matches) ==> !strings.HasSuffix(matches[j], "_test.go"))
 //@ func rawLoadPackage loop 0
@@ -1610,6 +1617,7 @@ package goatlang
 //@   assume len(pkgs) == 0 || len(files) >= 1
 //@ func rawLoadPackage loop 3
 //@   invariant tree != nil
+//@   iterassume tok != nil && (tok.Symbol == "package" ==> len(tok.Tokens) >= 1 && tok.Tokens[0] != nil)
 //@
 //@ func checkConstraint
 //@   property C15 C03
@@ -1642,7 +1650,10 @@ package goatlang
 //@
 //@ func loadImports
 //@   property C15 C16 C03
+//@   requires#top top != nil
 //@   modifies *
+//@   nopanic
+//@   assume @def:tok tok != nil
 //@   assert#depsHoisted @L0.4 pkg == topPkg || hoisted(p)
 //@   assert#ready @L3.3 found && len(deps[pkg]) == 0
 //@   callsite#inrange golang.org/x/exp/slices.Delete: 0 <= arg_1 && arg_1 <= arg_2 && arg_2 <= len(arg_0)
@@ -1653,8 +1664,10 @@ package goatlang
 //@   invariant true
 //@ func loadImports loop 1
 //@   invariant p != nil
+//@   assume forall j int :: 0 <= j && j < len(p.Tokens) ==> p.Tokens[j] != nil
 //@ func loadImports loop 2
 //@   invariant t != nil && i >= 1
+//@   assume forall j int :: 0 <= j && j < len(t.Tokens) ==> t.Tokens[j] != nil
 //@ func loadImports loop 3
 //@   invariant#resfresh cap(res) == 0 || (isfresh(arr(res)) && arr(res) != 0)
 //@   invariant#nonempty forall j int :: 0 <= j && j < len(res) ==> res[j] != nil && len(res[j].Tokens) >= 1
